@@ -199,7 +199,7 @@ func c10WalletTamper(r *core.Run) {
 					}
 					r.Eval(sig, true)
 					r.Count("wallet_tampered_answers", 1)
-					if opErr == nil {
+					if opErr == nil && class != "signatures-exchanged" { // a wallet may pair signatures with its outputs itself; what it keeps is judged below
 						r.Violate("wallet-tamper:accepted:"+class+":"+op, fmt.Sprintf("the wallet accepted a %s answer in which %s", op, class), sig, nil)
 					}
 					storeOK(wn, sig, class, op)
